@@ -17,7 +17,8 @@ RULE = ("cases: (modulator class, M, phase-offset history) x index-array "
         "signature is (class, M, offset-kind, sample-class or index-shape "
         "kind); rejection cases enumerate every unsupported M.  Non-trivial: "
         "the oracle decided at least one sample/index (tie-zone samples are "
-        "tallied, not counted).")
+        "tallied, not counted)."
+        " The next block (same size) is modulated before the first one is demodulated; the first block must be unchanged. ")
 ASSUMPTIONS = [
     "received samples are finite complex numbers; exact ties (best two "
     "squared distances within 1e-12 relative) are excluded as the property "
@@ -335,6 +336,15 @@ def round_trip(ctx, m, spec, okind, ia, kind):
     sym = np.asarray(m.symbols)
     ctx.ev("modulate-table", y_arr.shape == ia_arr.shape and
            np.array_equal(y_arr, sym[ia_arr]), detail=d)
+    if ia_arr.ndim and ia_arr.size:
+        # a transmitter modulates the next block (same size, other indexes) before
+        # the first one is demodulated: the first block belongs to the caller
+        keep = np.array(y_arr, copy=True)
+        other = (ia_arr + 1 + (np.arange(ia_arr.size).reshape(ia_arr.shape) % max(m.M - 1, 1))) % m.M
+        ok2, _y2 = ctx.call("round-trip", m.modulate, other.astype(ia_arr.dtype), detail=d)
+        if ok2:
+            ctx.ev("round-trip", np.array_equal(np.asarray(y), keep),
+                   cls="earlier-block-changed-by-later-modulate", detail=d)
     ok, back = ctx.call("round-trip", m.demodulate, y_arr if y_arr.ndim or True else y,
                         detail=d)
     if not ok:
